@@ -8,7 +8,7 @@ seeds=${@:-$(ls seeded | grep -E '^C[0-9]{2}[a-z]$')}
 rm -rf /tmp/evidence_backup && cp -r evidence /tmp/evidence_backup
 for sd in $seeds; do
   pid=$(python3 -c "import json;print(json.load(open('seeded/$sd/meta.json'))['property'])")
-  if ! git -C /repo apply seeded/$sd/patch.diff 2>/dev/null; then echo "$sd $pid PATCH-DOES-NOT-APPLY"; continue; fi
+  if ! git -C /repo apply /verif/seeded/$sd/patch.diff 2>/dev/null; then echo "$sd $pid PATCH-DOES-NOT-APPLY"; continue; fi
   out=$(./check $pid 2>&1 | grep -E "^VIOLATION|^OK" | tail -1)
   git -C /repo checkout -- .
   case "$out" in
